@@ -1648,3 +1648,9 @@ fn validate_publish_properties(props: &[Property]) -> Result<PropertyValidation,
         Ok(PropertyValidation::ValidWithoutTopicAlias)
     }
 }
+
+#[cfg(all(feature = "verif-hooks", kani))]
+#[allow(dead_code, unused)]
+pub(crate) mod verif_harness {
+    include!(concat!(env!("VERIF_HARNESS_DIR"), "/v5_publish_h.rs"));
+}
